@@ -95,4 +95,8 @@ def api(a):
     return {"package": a.package,
             "modules": [module(m) for m in a.modules.values()],
             "classes": [class_(c) for c in a.classes.values()],
-            "reexport_map": [{"key": k, "modules": [modref(m) for m in v]} for k, v in a.reexport_map.items()]}
+            "reexport_map": [{"key": k, "modules": [modref(m) for m in v]} for k, v in a.reexport_map.items()],
+            # the other tables of the API object, as their key order
+            "function_ids": list(a.functions), "result_ids": list(a.results), "enum_ids": list(a.enums),
+            "enum_instance_ids": list(a.enum_instances), "attribute_ids": list(a.attributes_),
+            "parameter_ids": list(a.parameters_)}
